@@ -1,0 +1,145 @@
+//go:build verif
+
+package harfbuzz
+
+import (
+	"github.com/go-text/typesetting/font"
+	"github.com/go-text/typesetting/language"
+)
+
+// Hooks for the verification harness (property C01, extension round): the cluster bookkeeping
+// glue of the shaping engine (setUnicodeProps, insertDottedCircle, formClusters,
+// ensureNativeDirection, otShapeNormalize, ensureMonotoneClusters, hideDefaultIgnorables) driven
+// on a buffer in a given state, with a font reduced to a cmap and a shaper whose decompose /
+// compose / normalization mode / reorderMarks are chosen by the harness. Nothing here changes
+// behaviour.
+
+// VerifEState is VerifState plus the fields the engine glue reads.
+type VerifEState struct {
+	VerifState
+	Pre, Post           []rune
+	Scratch             uint32 // bufferScratchFlags
+	Dir                 Direction
+	Script              language.Script
+	Invisible, NotFound GID
+}
+
+// VerifNewEBuffer builds a buffer in the given state.
+func VerifNewEBuffer(st VerifEState) *Buffer {
+	b := VerifNewBuffer(st.VerifState)
+	b.context[0] = append([]rune(nil), st.Pre...)
+	b.context[1] = append([]rune(nil), st.Post...)
+	b.scratchFlags |= bufferScratchFlags(st.Scratch)
+	b.Props.Direction = st.Dir
+	b.Props.Script = st.Script
+	b.Invisible, b.NotFound = st.Invisible, st.NotFound
+	return b
+}
+
+// VerifEState returns the current state.
+func (b *Buffer) VerifEState() VerifEState {
+	pre, post := b.VerifContexts()
+	return VerifEState{
+		VerifState: b.VerifState(), Pre: pre, Post: post, Scratch: uint32(b.scratchFlags),
+		Dir: b.Props.Direction, Script: b.Props.Script, Invisible: b.Invisible, NotFound: b.NotFound,
+	}
+}
+
+// VerifEnv is the font and the shaper of a run.
+type VerifEnv struct {
+	Cmap     map[rune]GID
+	Variants []font.VerifVariant
+	Decomp   map[rune][2]rune
+	Comp     map[[2]rune]rune
+	Mode     uint8 // normalizationMode
+	Reorder  int   // reorderMarks: 0 none, 1 Arabic, 2 Hebrew
+}
+
+type verifShaper struct {
+	complexShaperNil
+	env *VerifEnv
+}
+
+func (verifShaper) marksBehavior() (zeroWidthMarks, bool) { return zeroWidthMarksNone, false }
+func (s verifShaper) normalizationPreference() normalizationMode {
+	return normalizationMode(s.env.Mode)
+}
+
+func (s verifShaper) decompose(_ *otNormalizeContext, ab rune) (rune, rune, bool) {
+	d, ok := s.env.Decomp[ab]
+	return d[0], d[1], ok
+}
+
+func (s verifShaper) compose(_ *otNormalizeContext, a, b rune) (rune, bool) {
+	ab, ok := s.env.Comp[[2]rune{a, b}]
+	return ab, ok
+}
+
+func (s verifShaper) reorderMarks(plan *otShapePlan, buffer *Buffer, start, end int) {
+	switch s.env.Reorder {
+	case 1:
+		(&complexShaperArabic{}).reorderMarks(plan, buffer, start, end)
+	case 2:
+		complexShaperHebrew{}.reorderMarks(plan, buffer, start, end)
+	}
+}
+
+func (env *VerifEnv) font() *Font {
+	return &Font{face: font.VerifStubFace(env.Cmap, env.Variants)}
+}
+
+// VerifStage runs one stage of the engine glue on the buffer. `ascending` is only read by
+// "emc" (whether the buffer is in logical order).
+func VerifStage(b *Buffer, env *VerifEnv, stage string, ascending bool) {
+	switch stage {
+	case "setprops":
+		b.setUnicodeProps()
+	case "dotted":
+		b.insertDottedCircle(env.font())
+	case "form":
+		b.formClusters()
+	case "native":
+		b.ensureNativeDirection()
+	case "normalize":
+		otShapeNormalize(&otShapePlan{shaper: verifShaper{env: env}}, b, env.font())
+	case "hide":
+		hideDefaultIgnorables(b, env.font())
+	case "emc":
+		c := otContext{buffer: b, targetDirection: b.Props.Direction}
+		if !ascending {
+			c.targetDirection = b.Props.Direction.Reverse()
+		}
+		c.ensureMonotoneClusters()
+	case "pregsub": // the cluster-relevant calls of shaperOpentype.shape before substitution, in order
+		b.setUnicodeProps()
+		b.insertDottedCircle(env.font())
+		b.formClusters()
+		b.ensureNativeDirection()
+		otShapeNormalize(&otShapePlan{shaper: verifShaper{env: env}}, b, env.font())
+	default:
+		panic("unknown stage " + stage)
+	}
+}
+
+// VerifUnicodeData is what the engine glue reads about a rune.
+type VerifUnicodeData struct {
+	GenCat           uint8
+	DefaultIgnorable bool
+	Mcc              uint8
+	ExtPict          bool
+	Space            uint8
+}
+
+func VerifUnicode(r rune) VerifUnicodeData {
+	return VerifUnicodeData{
+		GenCat: uint8(uni.generalCategory(r)), DefaultIgnorable: uni.isDefaultIgnorable(r),
+		Mcc: uni.modifiedCombiningClass(r), ExtPict: uni.isExtendedPictographic(r), Space: uni.spaceFallbackType(r),
+	}
+}
+
+// VerifDecompose / VerifCompose are the Unicode functions the default shaper uses.
+func VerifDecompose(ab rune) (a, b rune, ok bool) { return uni.decompose(ab) }
+func VerifCompose(a, b rune) (rune, bool)         { return uni.compose(a, b) }
+
+// VerifModifierCombiningMarks is the table read by the Arabic reorderMarks.
+func VerifModifierCombiningMarks() []rune { return append([]rune(nil), modifierCombiningMarks[:]...) }
